@@ -410,7 +410,7 @@ def cancel_finds_live(ctx, db):
     re-uses the identifier (cancel reports false, the sleep stays pending)"""
     rid = ctx.rule('C12.cancel-finds-live-entry', 'GUARDED', 'scheduler::remove (its loops, helpers and search predicates): on every path on which an entry is matched by identifier, the entry '
                    'either leaves the heap on that path (pop_item), or its promise was tested non-empty in the same evaluation, or its identifier is overwritten when the promise is taken: '
-                   'an already cancelled entry never shadows a pending sleep with the same identifier', floor=2)
+                   'an already cancelled entry never shadows a pending sleep with the same identifier; a matched top entry that is removed is answered with only after its promise tested non-empty', floor=2)
     T = htracer(db, extra=lambda caller, ev, callee: callee['nname'] == 'cocls::scheduler::pop_item')
     PB = ('cocls::promise::operator bool', 'cocls::promise::operator!')
     n = 0
@@ -460,12 +460,27 @@ def cancel_finds_live(ctx, db):
                 popped = (not inner) and any(c.k == 'call' and op(c) in ('pop_back', 'pop_heap') for c in tr[i:hi])
                 wiped = any(w.k == 'write' and re.search(r'(\.|->)_ident$', w.get('path') or '') for w in tr[i:])
                 ok = tested or popped or wiped
+                why = None
+                if ok and not inner and popped and not tested:
+                    # the entry leaves the heap: fine - unless the function answers with its promise untested, which ends the search on a cancelled entry
+                    ret = next((x for x in tr[i:hi] if x.k == 'return' and not x.get('depth')), None)
+                    if ret is not None and re.search(r'local:\w+', ret.get('path') or ''):
+                        lv = re.search(r'local:\w+(#\d+)?', ret['path']).group(0)
+                        live_tested = False
+                        for j in range(i, pos(tr, ret)):
+                            b = tr[j]
+                            if b.k == 'branch':
+                                ce = cond_event(tr, j)
+                                if ce is not None and ce.k == 'call' and norm(ce.get('callee') or '') in PB and (ce.get('recv') or '') in (lv, obj + '._p'):
+                                    live_tested = bool(b.val) == norm(ce['callee']).endswith('bool')
+                        if not live_tested:
+                            ok = False; why = 'scheduler::remove answers with the promise of the matched top entry without testing it: when that entry was cancelled earlier the search ends with an empty answer although a pending sleep with the identifier may follow'
                 key = (it.get('fn'), it.get('depth'), it.get('id'))
                 if key not in sites or (sites[key][0] and not ok):
-                    sites[key] = (ok, it, tr)
-        for key, (ok, it, tr) in sorted(sites.items(), key=lambda kv: str(kv[0])):
+                    sites[key] = (ok, it, tr, why)
+        for key, (ok, it, tr, why) in sorted(sites.items(), key=lambda kv: str(kv[0])):
             ctx.ob(rid, f, relloc(it.get('loc')) if it.get('loc') else f['key'], ok, 'an entry matched by identifier is removed, or was tested live',
-                   desc=None if ok else 'scheduler::remove matches an entry by identifier without testing that its promise is still there and leaves it in the heap: an entry cancelled earlier '
+                   desc=None if ok else why or 'scheduler::remove matches an entry by identifier without testing that its promise is still there and leaves it in the heap: an entry cancelled earlier '
                    '(empty promise, same identifier) shadows a pending sleep - cancel reports false and the sleep is never cancelled', trace=fmt_trace(tr) if not ok else None)
     if n < 2:
         raise Broken('scheduler::remove: the identifier comparisons (top loop and search) were not found')
